@@ -105,7 +105,13 @@ func newC18V2Sys(t testing.TB, in c18Input) *c18Sys {
 	heads := &c18V2Heads{ch: make(chan v2.BlockKey), quit: make(chan struct{})}
 	cf := &v2coord.CoordinatorFactory{Logger: quietLogger, Encoder: c18V2CoordEnc{p: pr}, Logs: &c18V2Logs{p: pr}, CacheClean: 30 * time.Second}
 	of := &polling.PollingObserverFactory{Logger: quietLogger, Source: &c18V2Source{p: pr}, Heads: heads, Runner: c18V2Runner{p: pr}, Encoder: c18V2Enc{p: pr}}
-	fac := v2.NewReportingPluginFactory(c18V2Enc{p: pr}, c18V2Runner{p: pr}, cf, of, quietLogger)
+	var cfi v2.CoordinatorFactory = cf
+	if in.CloseFault == "v2-coordinator-close" {
+		w := &c18V2CF{inner: cf} // the coordinator's Close stops it and then reports an error
+		w.failClose.Store(true)
+		cfi = w
+	}
+	fac := v2.NewReportingPluginFactory(c18V2Enc{p: pr}, c18V2Runner{p: pr}, cfi, of, quietLogger)
 	go heads.feed()
 	closeFn, first := c18Build(in, pr, func(cfg string) func() error {
 		cctx, ccancel := context.WithCancel(context.Background())
